@@ -254,16 +254,73 @@ def sweepFine (s : St) (ctx : Ctx) (pw : Option Int) : Bool :=
 /-- side conditions of a step of a history the time-budget theorem speaks about: the chain's clock does not run backwards,
 heights are non-zero, rates are not negative, the whitelist is not switched, a rate update's sweep reaches the locker, and — the
 ONE restriction that excludes real behaviour of real users — no deposit / withdraw while the saving rate is zero. -/
+def opCond (s : St) (ctx : Ctx) (op : Op) (pw : Option Int) : Bool :=
+  match op with
+  | .deposit _ | .withdraw _ => s.coll.lsr != 0
+  | .lsrUpdate nr => decide (0 ≤ nr) && (s.coll.lsr == 0 || sweepFine s ctx pw)
+  | .wlOff => false
+  | _ => true
+
 def goodStep (s : St) (last : Int) (ctx : Ctx) (op : Op) (pw : Option Int) : Bool :=
-  decide (last ≤ ctx.now) && decide (ctx.height ≠ 0) &&
-    (match op with
-     | .deposit _ | .withdraw _ => s.coll.lsr != 0
-     | .lsrUpdate nr => decide (0 ≤ nr) && (s.coll.lsr == 0 || sweepFine s ctx pw)
-     | .wlOff => false
-     | _ => true)
+  decide (last ≤ ctx.now) && decide (ctx.height ≠ 0) && opCond s ctx op pw
 
 def goodHist (s : St) (last : Int) : Hist → Bool
   | [] => true
   | (ctx, op, pw) :: h => goodStep s last ctx op pw && goodHist ((step s ctx op pw).getD s) ctx.now h
+
+
+/-! ## the repair of defect D35 (notes/C18.md): deposit / withdraw write the flag while the rate is zero, as create does
+
+`stepFix` is NOT what the code does; it is the model of the three-line patch given in the notes. The driver accepts it as well as
+`step` for deposit / withdraw (so that a repaired tree checks clean), and `C18.savings_only_for_time_at_positive_rate_repaired`
+proves that with it the time-budget theorem needs no restriction on deposits and withdrawals. -/
+
+def restampFix (s : St) (ctx : Ctx) (delta : Int) : St :=
+  match s.locker with
+  | some l => { s with locker := some { l with net := l.net + delta, bh := if s.coll.lsr = 0 then 0 else ctx.height, bt := ctx.now } }
+  | none => s
+
+def stepFix (s : St) (ctx : Ctx) (op : Op) (pw : Option Int) : Res :=
+  match op with
+  | .deposit amt =>
+    if amt ≤ 0 then .err
+    else match s.locker with
+      | none => .err
+      | some l => (accrue s ctx l pw).map fun s1 => restampFix s1 ctx amt
+  | .withdraw amt =>
+    if amt ≤ 0 then .err
+    else match s.locker with
+      | none => .err
+      | some l =>
+        if l.net < amt then .err
+        else (accrue s ctx l pw).map fun s1 => restampFix s1 ctx (-amt)
+  | op => step s ctx op pw
+
+def accTermFix (r : Dec) (s : St) (ctx : Ctx) (op : Op) (pw : Option Int) : Int :=
+  if accepted (stepFix s ctx op pw) && accrues s op && decide (s.coll.lsr = r)
+  then (match s.locker with | some l => ctx.now - clock s l | none => 0) else 0
+
+def gstepFix (r : Dec) (s : St) (g : Ghost) (ctx : Ctx) (op : Op) (pw : Option Int) : Ghost :=
+  { last := ctx.now,
+    pos := g.pos + (if s.coll.lsr = r then ctx.now - g.last else 0),
+    acc := g.acc + accTermFix r s ctx op pw }
+
+def grunFix (r : Dec) (s : St) (g : Ghost) : Hist → St × Ghost
+  | [] => (s, g)
+  | (ctx, op, pw) :: h => grunFix r ((stepFix s ctx op pw).getD s) (gstepFix r s g ctx op pw) h
+
+/-- `goodStep` without the restriction on deposit / withdraw -/
+def opCondFix (s : St) (ctx : Ctx) (op : Op) (pw : Option Int) : Bool :=
+  match op with
+  | .lsrUpdate nr => decide (0 ≤ nr) && (s.coll.lsr == 0 || sweepFine s ctx pw)
+  | .wlOff => false
+  | _ => true
+
+def goodStepFix (s : St) (last : Int) (ctx : Ctx) (op : Op) (pw : Option Int) : Bool :=
+  decide (last ≤ ctx.now) && decide (ctx.height ≠ 0) && opCondFix s ctx op pw
+
+def goodHistFix (s : St) (last : Int) : Hist → Bool
+  | [] => true
+  | (ctx, op, pw) :: h => goodStepFix s last ctx op pw && goodHistFix ((stepFix s ctx op pw).getD s) ctx.now h
 
 end Comdex.LockerAccrual
